@@ -12,6 +12,9 @@ pub enum DefOp {
     Deflate { in_chunk: usize, out_chunk: usize, flush: c_int },
     Params { in_chunk: usize, out_chunk: usize, level: c_int, strategy: c_int },
     Tune { good: c_int, lazy: c_int, nice: c_int, chain: c_int },
+    /// deflateCopy into a fresh z_stream, deflateEnd the original, continue the session on the copy
+    /// (a no-op for the safe wrapper, which has no copy operation)
+    CopySwap,
 }
 
 #[derive(Clone, Debug)]
@@ -44,6 +47,7 @@ impl DefPlan {
                 DefOp::Deflate { in_chunk, out_chunk, flush } => format!("D({},{},{})", in_chunk, out_chunk, flush),
                 DefOp::Params { in_chunk, out_chunk, level, strategy } => format!("P({},{},L{},S{})", in_chunk, out_chunk, level, strategy),
                 DefOp::Tune { good, lazy, nice, chain } => format!("T({},{},{},{})", good, lazy, nice, chain),
+                DefOp::CopySwap => "Copy".to_string(),
             })
             .collect();
         format!("ops[{}x{}]={} finish_out={:?}", self.ops.len(), self.cycles, v.join(""), &self.finish_out[..self.finish_out.len().min(6)])
@@ -62,11 +66,13 @@ pub struct PlanOpts {
     pub flush_heavy: bool,
     /// tune values restricted to the table domain (strict variant) or arbitrary
     pub tune_table_domain: bool,
+    /// insert deflateCopy-and-continue ops (decoded after everything else of the plan)
+    pub allow_copy: bool,
 }
 
 impl PlanOpts {
     pub fn standard() -> Self {
-        PlanOpts { max_len: 300_000, allow_params: true, allow_tune: true, allow_dict: false, allow_gz_header: true, flush_heavy: false, tune_table_domain: true }
+        PlanOpts { max_len: 300_000, allow_params: true, allow_tune: true, allow_dict: false, allow_gz_header: true, flush_heavy: false, tune_table_domain: true, allow_copy: false }
     }
 }
 
@@ -142,7 +148,15 @@ pub fn gen_plan(t: &mut Tape, po: &PlanOpts) -> DefPlan {
         4 => vec![0, 5, 0, 6, 1 << 20],
         _ => vec![t.pick(&DCHUNKS).max(1), t.pick(&DCHUNKS).max(1)],
     };
-    DefPlan { cfg, data, dict, gz, ops, cycles, finish_out, in_right: !t.chance(48), out_right: !t.chance(64), canonical: false }
+    let mut plan = DefPlan { cfg, data, dict, gz, ops, cycles, finish_out, in_right: !t.chance(48), out_right: !t.chance(64), canonical: false };
+    if po.allow_copy && t.chance(110) {
+        for _ in 0..1 + t.below(2) {
+            let at = t.below(plan.ops.len() + 1);
+            plan.ops.insert(at, DefOp::CopySwap);
+        }
+        plan.cycles = plan.cycles.min(40);
+    }
+    plan
 }
 
 #[derive(Clone, Debug)]
@@ -214,6 +228,9 @@ pub trait DefBack: Sized {
     fn set_dict(&mut self, d: *const u8, n: usize) -> (c_int, u64);
     fn set_header(&mut self, h: *mut gz_header) -> c_int;
     fn bound(&mut self, n: u64) -> u64;
+    fn copy_swap(&mut self) -> c_int {
+        Z_OK
+    }
     fn end(self) -> c_int;
 }
 
@@ -278,6 +295,17 @@ impl<A: Z> DefBack for CDef<A> {
     }
     fn bound(&mut self, n: u64) -> u64 {
         unsafe { A::deflateBound(&mut *self.strm, n as _) as u64 }
+    }
+    fn copy_swap(&mut self) -> c_int {
+        let mut dest = Box::new(zs());
+        let rc = unsafe { A::deflateCopy(&mut *dest, &mut *self.strm) };
+        if rc != Z_OK {
+            return rc;
+        }
+        let erc = unsafe { A::deflateEnd(&mut *self.strm) };
+        self.strm = dest;
+        // ending a stream in mid-session reports Z_DATA_ERROR (data discarded); both are documented
+        if erc == Z_OK || erc == Z_DATA_ERROR { Z_OK } else { erc }
     }
     fn end(mut self) -> c_int {
         unsafe { A::deflateEnd(&mut *self.strm) }
@@ -656,6 +684,13 @@ pub fn run_deflate_with<B: DefBack>(plan: &DefPlan, ar: &Arenas) -> DefRun {
                         }
                     }
                 }
+                DefOp::CopySwap => {
+                    let rc = be.copy_swap();
+                    if rc != Z_OK {
+                        viol(&mut run, "C06", "deflateCopy/status", format!("deflateCopy of a valid stream (then deflateEnd of the original) returned {}", rc_name(rc)));
+                        break 'ops;
+                    }
+                }
             }
             continue 'ops;
         }
@@ -725,6 +760,13 @@ pub fn run_deflate_with<B: DefBack>(plan: &DefPlan, ar: &Arenas) -> DefRun {
                 let rc = be.tune(good, lazy, nice, chain);
                 if rc != Z_OK {
                     viol(&mut run, "C06", "deflateTune/status", format!("deflateTune returned {}", rc_name(rc)));
+                    break 'ops;
+                }
+            }
+            DefOp::CopySwap => {
+                let rc = be.copy_swap();
+                if rc != Z_OK {
+                    viol(&mut run, "C06", "deflateCopy/status", format!("deflateCopy of a valid stream (then deflateEnd of the original) returned {}", rc_name(rc)));
                     break 'ops;
                 }
             }
